@@ -55,6 +55,10 @@ func setupPrefix(args ...string) (handler.Handler6, error) {
 		return nil, fmt.Errorf("Invalid pool subnet: %v", err)
 	}
 
+	if prefix.IP.To4() != nil {
+		return nil, fmt.Errorf("Invalid pool subnet: %v is not an IPv6 prefix", prefix)
+	}
+
 	allocSize, err := strconv.Atoi(args[1])
 	if err != nil || allocSize > 128 || allocSize < 0 {
 		return nil, fmt.Errorf("Invalid prefix length: %v", err)
